@@ -17,7 +17,8 @@
 (*   - start = 0 / 1 / "X_0" pins the zeroth order (1: diagonal blocks),   *)
 (*   - hermitian / antihermitian: a lower block is +- the adjoint of the   *)
 (*     mirrored upper block,                                               *)
-(*   - all lines are summed; `diagonal` lines apply to i = j and keep the  *)
+(*   - all lines are summed (`lower` lines apply to i > j);                *)
+(*     `diagonal` lines apply to i = j and keep the                        *)
 (*     kept elements of the block; `offdiagonal` lines apply to i # j and, *)
 (*     on i = j, to the elements selected for elimination (nothing if the  *)
 (*     block has no selection),                                            *)
@@ -98,6 +99,10 @@ LineVal(ctx, ln, i, j, pos) ==
                                   ELSE MZero(ctx.sizes[i + 1], ctx.sizes[j + 1])
     [] ln.cond = "offdiagonal" -> IF i # j THEN EvalE(ctx, ln.expr, i, j, pos)
                                   ELSE MaskElim(ctx, i, EvalE(ctx, ln.expr, i, j, pos))
+    \* `lower`: indices in the lower triangle.  (The harness writes such a line LAST in a definition:
+    \* the compiled code returns right after it, which the documentation does not say.)
+    [] ln.cond = "lower"       -> IF i > j THEN EvalE(ctx, ln.expr, i, j, pos)
+                                  ELSE MZero(ctx.sizes[i + 1], ctx.sizes[j + 1])
 
 StripZero(s) == SubSeq(s, 7, Len(s) - 2)      \* "input:H_0" -> "H"
 SeriesDef(ctx, s, i, j, pos) ==
